@@ -22,7 +22,9 @@ META = {
                    'and registries are checked for mutual isolation.',
     'bounds': {
         'quick': {'virtual types': 3, 'registrations': '<= 3 in every order', 'lookups': 'after every registration, for every type',
-                  'class families': 6, 'registry flavours': 3},
+                  'class families': 6, 'registry flavours': 3,
+                  'paths crossing types': '3-segment paths over nodes of Base > Mid > Leaf, every subset of registered types x exact flags x 3 spellings',
+                  'spec objects re-used': 'Delete / Assign / Path evaluated before and after a re-registration and on two registries'},
         'thorough': {'virtual types': '3 and 4', 'registrations': '<= 3 (N=4) / 3 (N=3)'},
     },
     'stubs': ['S4 state reset (module registry restored from the import-time snapshot)'],
@@ -342,6 +344,126 @@ def exact_false(fam: int, flavour: int, i0: int, i1: int, op: int) -> bool:
     return ok or fail(why='after re-registration without exact the type covers its subclasses for every operation', r_get=r_get, r_it=r_it)
 
 
+# ---- handler choice is made afresh for EVERY object met along a path, and on every evaluation of a spec object ---------
+class NBase:
+    __slots__ = ('kids',)
+
+    def __init__(self, **kids):
+        self.kids = kids
+
+
+class NMid(NBase):
+    __slots__ = ()
+
+
+class NLeaf(NMid):
+    __slots__ = ()
+
+
+NFAM = [NBase, NMid, NLeaf]
+HLOG = []
+
+
+def _mk_get(tag):
+    def get(obj, name):
+        HLOG.append(tag)
+        return obj.kids[name]
+    return get
+
+
+def path_crossing(t0: int, t1: int, t2: int, reg: int, ex: int, style: int) -> bool:
+    """a three-segment path walks root -> kid -> kid; every node is an instance of one of Base > Mid > Leaf; a bare registry
+    has get handlers for the subset `reg` of these types (bit mask), `ex` marks which of them are exact: each step uses the
+    handler of ITS OWN node -- exact entry of its type, else nearest non-exact registered ancestor, else UnregisteredTarget"""
+    start()
+    t0, t1, t2 = concretize(t0, 0, 2), concretize(t1, 0, 2), concretize(t2, 0, 2)
+    reg, ex, style = concretize(reg, 1, 7), concretize(ex, 0, 7), concretize(style, 0, 2)
+    if OUT in (t0, t1, t2, reg, ex, style):
+        return True
+    g = Glommer(register_default_types=False)
+    regd = {}
+    for i, cls in enumerate(NFAM):
+        if reg & (1 << i):
+            exact = bool(ex & (1 << i))
+            g.register(cls, get=_mk_get(i), exact=exact)
+            regd[cls] = (i, exact)
+    leaf = NFAM[t2](c='value')
+    root = NFAM[t0](a=NFAM[t1](b=leaf))
+    nodes = [root, root.kids['a'], leaf]
+
+    def choose(obj):
+        X = type(obj)
+        if X in regd:
+            return regd[X][0]
+        best = None
+        for cls in X.__mro__[1:]:
+            if cls in regd and not regd[cls][1]:
+                best = regd[cls][0]
+                break
+        return best
+    exp_log, exp_err = [], False
+    for nd in nodes:
+        tag = choose(nd)
+        if tag is None:
+            exp_err = True
+            break
+        exp_log.append(tag)
+    spec = ['a.b.c', Path('a', 'b', 'c'), ('a', 'b.c')][style]
+    del HLOG[:]
+    got = run(lambda: g.glom(root, spec, glom_debug=True))
+    reach('path_crossing')
+    if len(set(type(n) for n in nodes)) > 1 and not exp_err:
+        reach('crossing_types')
+    if exp_err:
+        return (got.kind == 'err' and isinstance(got.exc, UnregisteredTarget) and HLOG == exp_log) or fail(why='an unregistered node must raise UnregisteredTarget', got=got, log=list(HLOG), exp_log=exp_log)
+    return (got.kind == 'ok' and got.value == 'value' and HLOG == exp_log) or fail(why="each step uses its own node's handler", got=got, log=list(HLOG), exp_log=exp_log, types=[t0, t1, t2], reg=reg, ex=ex)
+
+
+def spec_reuse(kind: int, how: int, v: int) -> bool:
+    """ONE spec object (Delete / Assign / Path) evaluated twice: after a re-registration in between, or on two different
+    registries -- each evaluation uses the handler registered THERE and THEN"""
+    start()
+    kind, how = concretize(kind, 0, 2), concretize(how, 0, 2)
+    if kind is OUT or how is OUT:
+        return True
+    log = []
+
+    def mk(tag):
+        return dict(get=lambda o, k: (log.append(('get', tag)), o.kids[k])[1],
+                    assign=lambda o, k, val: (log.append(('assign', tag)), o.kids.__setitem__(k, val), o)[2],
+                    delete=lambda o, k: (log.append(('delete', tag)), o.kids.__delitem__(k))[1])
+    spec = [glom_pkg.Delete(Path('a', 'k')), glom_pkg.Assign(Path('a', 'k'), v), Path('a', 'k')][kind]
+    opname = ['delete', 'assign', 'get'][kind]
+
+    def target():
+        return NBase(a=NMid(k=1))
+    if how == 0:
+        ga = gb = Glommer(register_default_types=False)
+        ga.register(NBase, **mk('first'))
+        r1 = run(lambda: ga.glom(target(), spec, glom_debug=True))
+        ga.register(NMid, **mk('second'))                      # a more specific registration arrives between the evaluations
+    elif how == 1:
+        ga, gb = Glommer(register_default_types=False), Glommer(register_default_types=False)
+        ga.register(NBase, **mk('first'))
+        gb.register(NBase, **mk('second'))
+        r1 = run(lambda: ga.glom(target(), spec, glom_debug=True))
+    else:
+        ga = gb = Glommer(register_default_types=False)
+        ga.register(NMid, **mk('first'))
+        ga.register(NBase, **mk('first'))
+        r1 = run(lambda: ga.glom(target(), spec, glom_debug=True))
+        ga.register(NMid, **mk('second'))                      # re-registration of the very same type
+    n1 = len(log)
+    r2 = run(lambda: gb.glom(target(), spec, glom_debug=True))
+    reach('spec_reuse')
+    if r1.kind != 'ok' or r2.kind != 'ok':
+        return fail(why='both evaluations succeed', r1=r1, r2=r2)
+    first = [e for e in log[:n1] if e[0] == opname]
+    second = [e for e in log[n1:] if e[0] == opname]
+    # the entry that matters is the last one: the operation on the NMid node reached through 'a'
+    return (first[-1:] == [(opname, 'first')] and second[-1:] == [(opname, 'second')]) or fail(why='the second evaluation must use the handler registered for it', first=first, second=second, kind=kind, how=how)
+
+
 class Tgt:
     def __init__(self):
         self.x = 'attr'
@@ -446,6 +568,14 @@ def obligations(tier):
             obs.append(Ob(exact_false, fixed={'fam': fam, 'flavour': flavour}, pre='0 <= i0 <= 3 and 0 <= i1 <= 3 and 0 <= op <= 1',
                           name='exact_false_%s_f%d' % (FAM_NAMES[fam], flavour)))
     obs.append(Ob(isolation, pre='0 <= order <= 5 and 0 <= which <= 1', name='isolation'))
+    for t0 in range(3):
+        for style in range(3):
+            obs.append(Ob(path_crossing, fixed={'t0': t0, 'style': style}, pre='0 <= t1 <= 2 and 0 <= t2 <= 2 and 1 <= reg <= 7 and 0 <= ex <= 7',
+                          name='path_crossing_%d_s%d' % (t0, style), timeout=240))
+    obs.append(Ob(path_crossing, fixed={'t0': 0, 'style': 0}, pre='0 <= t1 <= 2 and 0 <= t2 <= 2 and 1 <= reg <= 7 and 0 <= ex <= 7',
+                  twin='crossing_types', name='path_crossing_0_s0'))
+    obs.append(Ob(spec_reuse, pre='0 <= kind <= 2 and 0 <= how <= 2', name='spec_reuse'))
+    obs.append(Ob(spec_reuse, pre='0 <= kind <= 2 and 0 <= how <= 2', twin='spec_reuse', name='spec_reuse'))
     obs.append(Ob(glommer_default, pre='0 <= shape <= 11', name='glommer_default'))
     obs.append(Ob(virt3, fixed={'nreg': 2, 'a': 0, 'b': 1, 'c': 2, 'ec': False, 'probe_between': True}, twin='ancestor', name='virt3_n2'))
     obs.append(Ob(virt3, fixed={'nreg': 2, 'a': 0, 'b': 1, 'c': 2, 'ec': False, 'probe_between': True}, twin='unreg', name='virt3_n2'))
